@@ -352,6 +352,7 @@ func (x *Exec) lockOp(st *State, p Val, mode string, acquire bool) {
 	field := p.prefix()
 	if acquire {
 		x.checkLockOrder(st, field, p.T(), mode)
+		x.checkAtomic(st, field, p.T())
 		st.held = append(st.held, HeldLock{Field: field, Ref: p.T(), Mode: mode})
 		return
 	}
@@ -359,6 +360,10 @@ func (x *Exec) lockOp(st *State, p Val, mode string, acquire bool) {
 		h := st.held[i]
 		if h.Field == field && h.Ref.S == p.T().S && h.Mode == mode {
 			st.held = append(st.held[:i], st.held[i+1:]...)
+			if st.released == nil {
+				st.released = map[string]bool{}
+			}
+			st.released[field+"@"+p.T().S] = true
 			return
 		}
 	}
